@@ -1,1 +1,57 @@
+//! Binding of the explorer to the real bnum types (default features), and the per-property
+//! operation tables.
 
+pub use refmodel::*;
+pub use vengine::*;
+
+pub mod plans;
+pub mod tables;
+
+/// Invoke a macro once per digit family: $m!(module, BUintX, BIntX, digit type)
+#[macro_export]
+macro_rules! for_families {
+    ($m:ident) => {
+        $m!(d8, BUintD8, BIntD8, u8);
+        $m!(d16, BUintD16, BIntD16, u16);
+        $m!(d32, BUintD32, BIntD32, u32);
+        $m!(d64, BUint, BInt, u64);
+    };
+}
+
+/// The configuration lists of DESIGN.md section 4.1: invokes $m!(run, family, N, carrier) for
+/// every configuration of the tier.
+#[macro_export]
+macro_rules! core_configs {
+    ($m:ident, $run:expr) => {
+        $m!($run, d8, 1, i128);
+        $m!($run, d8, 2, i128);
+        $m!($run, d8, 3, i128);
+        $m!($run, d16, 1, i128);
+        $m!($run, d16, 2, i128);
+        $m!($run, d16, 3, BigRef);
+        $m!($run, d32, 1, i128);
+        $m!($run, d32, 2, BigRef);
+        $m!($run, d32, 3, BigRef);
+        $m!($run, d64, 1, BigRef);
+        $m!($run, d64, 2, BigRef);
+        $m!($run, d64, 3, BigRef);
+        if $run.tier == Tier::Thorough {
+            $m!($run, d8, 4, i128);
+            $m!($run, d8, 5, BigRef);
+            $m!($run, d8, 8, BigRef);
+            $m!($run, d8, 17, BigRef);
+            $m!($run, d8, 32, BigRef);
+            $m!($run, d16, 4, BigRef);
+            $m!($run, d16, 5, BigRef);
+            $m!($run, d16, 12, BigRef);
+            $m!($run, d32, 4, BigRef);
+            $m!($run, d32, 5, BigRef);
+            $m!($run, d32, 10, BigRef);
+            $m!($run, d64, 4, BigRef);
+            $m!($run, d64, 5, BigRef);
+            $m!($run, d64, 8, BigRef);
+            $m!($run, d64, 16, BigRef);
+            $m!($run, d64, 128, BigRef);
+        }
+    };
+}
